@@ -149,7 +149,16 @@ func (so *Sorts) sortOf(t types.Type) string {
 		}
 		return so.declareOpaque("Opaque_ptr")
 	case *types.Map:
-		return so.declareOpaque("Map_" + sanitize(so.sortOf(u.Key())) + "_" + sanitize(so.sortOf(u.Elem())))
+		ms := so.declareOpaque("Map_" + sanitize(so.sortOf(u.Key())) + "_" + sanitize(so.sortOf(u.Elem())))
+		// membership / lookup functions of the map sort
+		has, get := "mapHas_"+ms, "mapGet_"+ms
+		if _, ok := so.sig.Funs[has]; !ok {
+			ks, es := so.sortOf(u.Key()), so.sortOf(u.Elem())
+			so.sig.Funs[has] = &FunSig{Args: []string{ms, ks}, Ret: "Bool"}
+			so.sig.Funs[get] = &FunSig{Args: []string{ms, ks}, Ret: es}
+			so.decls = append(so.decls, fmt.Sprintf("(declare-fun %s (%s %s) Bool)", has, ms, ks), fmt.Sprintf("(declare-fun %s (%s %s) %s)", get, ms, ks, es))
+		}
+		return ms
 	case *types.Signature:
 		return so.declareOpaque("Func")
 	case *types.Interface:
